@@ -25,6 +25,8 @@ pub mod c09;
 pub mod c12;
 #[cfg(feature = "c13")]
 pub mod c13;
+#[cfg(feature = "c14")]
+pub mod c14;
 #[cfg(feature = "c16")]
 pub mod c16;
 
